@@ -356,7 +356,7 @@ fn check_whole(r: &mut Report) {
         (lay(&[TcpOption::Mss]), lay(&[TcpOption::Mss, TcpOption::Nop])),
         (lay(&[TcpOption::Unknown(9)]), lay(&[TcpOption::Unknown(10)])),
     ];
-    let quirks = [(vec![Df, NonZeroID], vec![Df, NonZeroID]), (vec![], vec![]), (vec![Df, NonZeroID], vec![Df]), (vec![Df], vec![Df, Ecn]), (vec![Ecn, Df, NonZeroID], vec![Df, NonZeroID, Ecn]), (vec![Df], vec![ZeroID]), (vec![], vec![Df, NonZeroID]), (vec![FlowID], vec![]), (vec![], vec![FlowID]), (vec![Ecn, Ecn, Df], vec![Df, Ecn]), (vec![Ecn, Ecn], vec![Ecn, Df])];
+    let quirks = [(vec![Df, NonZeroID], vec![Df, NonZeroID]), (vec![], vec![]), (vec![Df, NonZeroID], vec![Df]), (vec![Df], vec![Df, Ecn]), (vec![Ecn, Df, NonZeroID], vec![Df, NonZeroID, Ecn]), (vec![Df], vec![ZeroID]), (vec![], vec![Df, NonZeroID]), (vec![FlowID], vec![]), (vec![], vec![FlowID]), (vec![Ecn, Ecn, Df], vec![Df, Ecn]), (vec![Ecn, Ecn], vec![Ecn, Df]), (vec![Df, OptBad], vec![Df, OptBad]), (vec![OptBad], vec![OptBad]), (vec![OptBad, TrailinigNonZero, ExcessiveWindowScaling], vec![ExcessiveWindowScaling, OptBad, TrailinigNonZero]), (vec![OwnTimestampZero, Push, Urg], vec![Urg, OwnTimestampZero, Push]), (vec![SeqNumZero, AckNumNonZero, MustBeZero], vec![MustBeZero, SeqNumZero, AckNumNonZero])];
     let pcs = [(PayloadSize::Zero, PayloadSize::Zero), (PayloadSize::NonZero, PayloadSize::Any), (PayloadSize::Zero, PayloadSize::Any), (PayloadSize::NonZero, PayloadSize::Zero), (PayloadSize::Zero, PayloadSize::NonZero)];
     let dims = [vers.len(), ttls.len(), olens.len(), msss.len(), wins.len(), wss.len(), olayouts.len(), quirks.len(), pcs.len()];
     let total: usize = dims.iter().product();
